@@ -140,6 +140,20 @@ impl<'this> Encoder<'this> {
         self.iovec.consumer()
     }
 
+    /// Verification hook: the underlying [`OwningIovec`].
+    #[cfg(woodpile_verif)]
+    #[doc(hidden)]
+    pub fn verif_iovec(&mut self) -> &mut OwningIovec<'this> {
+        &mut self.iovec
+    }
+
+    /// Verification hook: `(max_chunk_size, current_chunk_size, maybe_mid_stuff)`.
+    #[cfg(woodpile_verif)]
+    #[doc(hidden)]
+    pub fn verif_state(&self) -> (usize, usize, bool) {
+        self.state.verif_state()
+    }
+
     /// Appends `data` to the bytes to encode.
     ///
     /// This method tries to avoid copying large `data`.
@@ -269,6 +283,20 @@ impl<'this> Decoder<'this> {
     #[inline(always)]
     pub fn consumer(&mut self) -> ConsumingIovec<'_> {
         self.iovec.consumer()
+    }
+
+    /// Verification hook: the underlying [`OwningIovec`].
+    #[cfg(woodpile_verif)]
+    #[doc(hidden)]
+    pub fn verif_iovec(&mut self) -> &mut OwningIovec<'this> {
+        &mut self.iovec
+    }
+
+    /// Verification hook: `(state tag, remaining, flag)` as `DecoderState::verif_state`.
+    #[cfg(woodpile_verif)]
+    #[doc(hidden)]
+    pub fn verif_state(&self) -> (u8, usize, bool) {
+        self.state.verif_state()
     }
 
     /// Returns the internal [`OwningIovec`] with the remainder
